@@ -14,9 +14,21 @@
 (*   "vpvp"  pointer -> pointer, key free callback                         *)
 (*   "vpstr" pointer -> string        "dict" string -> string (case-       *)
 (*           insensitive keys), has keys()                                 *)
-(* A key is a small integer k; for the case-insensitive kinds k and k+1    *)
-(* (k even) are two spellings of the same key ("key7"/"KEY7"): Norm.       *)
-(* map[Norm(k)] = [k |-> spelling stored, v |-> value].                    *)
+(* KEY DOMAIN.  strvp and dict hash and compare their string keys without  *)
+(* regard to letter case (ares_htable_hash_FNV1a_casecmp / ares_strcaseeq):*)
+(* the key domain of these two wrappers is the CASE-FOLDED string, i.e.    *)
+(* two spellings that differ only in letter case ARE THE SAME KEY: a get / *)
+(* remove / claim under any spelling finds the entry, an insert under      *)
+(* another spelling REPLACES it (one entry, num_keys unchanged, the old    *)
+(* value is freed).  vpstr, vpvp (pointer identity), szvp, asvp and the    *)
+(* generic table compare keys exactly.                                     *)
+(* A key is a small integer id k; for the case-insensitive kinds the ids   *)
+(* 2n and 2n+1 are two spellings of key n ("key7"/"KEY7", "key8"/"kEy8"):  *)
+(* Norm(kind, k) is the key, map[Norm(k)] = [k |-> spelling stored (what   *)
+(* keys() enumerates), v |-> value].                                       *)
+(* A table may be created pre-filled (create [kind, nkeys, prefill]): the  *)
+(* filler entries (ids 2*nkeys + 2i, values 100000 + i) make short scripts *)
+(* run on a table that has already grown/rehashed.                         *)
 (*                                                                         *)
 (* Result record: ok (1/0 = ARES_TRUE/FALSE, or NoVal when the call has no *)
 (* boolean result), out = value handed back (NoVal = none), d = values     *)
@@ -80,7 +92,10 @@ Empty(k, n)      == St(k, n, <<>>)
 \* (leak = library allocations of the history still live afterwards: none)
 HDestroy(s)      == Out(Empty(s.kind, s.nk), [ok |-> NoVal, out |-> NoVal, d |-> LiveVals(s),
                                               dk |-> IF FreesKey(s.kind) THEN LiveKeys(s) ELSE <<>>, leak |-> 0])
-HCreate(k, n)    == Out(Empty(k, n), R(NoVal, NoVal, <<>>, <<>>))
+Fillers(k, n, p) == [x \in {Norm(k, 2 * n + 2 * i) : i \in 0 .. p - 1} |->
+                       LET i == CHOOSE j \in 0 .. p - 1 : Norm(k, 2 * n + 2 * j) = x
+                       IN [k |-> 2 * n + 2 * i, v |-> 100000 + i]]
+HCreate(k, n, p) == Out(St(k, n, Fillers(k, n, p)), R(NoVal, NoVal, <<>>, <<>>))
 
 \* keys() / all_buckets(): every live key exactly once, in no particular order (compared sorted)
 HKeys(s)         == Out(s, [ok |-> NoVal, out |-> Cardinality(DOMAIN s.map), d |-> <<>>, dk |-> <<>>, keys |-> LiveKeys(s)])
